@@ -136,6 +136,7 @@ type vKit struct {
 	nacks    []int64
 	minISR   int
 	fetchMax int
+	batch    int
 	msgSize  int64
 }
 
@@ -164,7 +165,7 @@ func vPolicyName(p client.AckPolicy) string {
 	return "NONE"
 }
 
-func newVKit(t *testing.T, ns *gnatsd.Server, gate *vFollowGate, n int, minISR, fetchMax int, ids []string) *vKit {
+func newVKit(t *testing.T, ns *gnatsd.Server, gate *vFollowGate, n int, minISR, fetchMax int, ids []string, batch int) *vKit {
 	base, err := os.MkdirTemp("", "vkit")
 	if err != nil {
 		t.Fatalf("tempdir: %v", err)
@@ -175,7 +176,7 @@ func newVKit(t *testing.T, ns *gnatsd.Server, gate *vFollowGate, n int, minISR, 
 		stream: fmt.Sprintf("s%d", n), subject: fmt.Sprintf("subj%d", n),
 		srv: map[string]*Server{}, isr: map[string]bool{}, hwDisk: map[string]int64{},
 		lastLog: map[string][]vRepRec{}, lastHW: map[string]int64{}, lastIsr: map[string]map[string]int64{},
-		minISR: minISR, fetchMax: fetchMax,
+		minISR: minISR, fetchMax: fetchMax, batch: batch,
 	}
 	nc, err := nats.Connect(k.url)
 	if err != nil {
@@ -242,6 +243,12 @@ func (k *vKit) newServer(id string) *Server {
 	config.Clustering.ReplicaMaxIdleWait = time.Millisecond
 	config.BatchMaxMessages = 1
 	config.BatchMaxTime = 0
+	if k.batch > 1 {
+		// the leader waits up to BatchMaxTime for a batch to fill: the driver sends
+		// the messages of one batch back to back
+		config.BatchMaxMessages = k.batch
+		config.BatchMaxTime = 150 * time.Millisecond
+	}
 	config.Streams.SegmentMaxBytes = 1 << 20
 	// one stored record = 28 (message-set header) + 64 + len(subject) bytes; a
 	// replication response may carry at most fetchMax of them
@@ -398,6 +405,43 @@ func (k *vKit) publish(v int64, pol string, big bool) string {
 		if p.log.NewestOffset() == before {
 			return "not-appended"
 		}
+	}
+	k.settle()
+	return ""
+}
+
+// publishBatch sends the messages back to back (one batch of the leader's
+// processing loop when BatchMaxMessages allows it) and waits until all are stored.
+func (k *vKit) publishBatch(vs []int64, pols []string) string {
+	if len(vs) == 1 {
+		return k.publish(vs[0], pols[0], false)
+	}
+	p := k.leaderPart()
+	if p == nil {
+		return "no-leader"
+	}
+	before := p.log.NewestOffset()
+	for i, v := range vs {
+		val := fmt.Sprintf("m%d|", v)
+		val += strings.Repeat(".", 24-len(val))
+		data, err := proto.MarshalPublish(&client.Message{
+			Value: []byte(val), AckInbox: k.ackInbox, CorrelationId: fmt.Sprintf("c%d", v),
+			AckPolicy: vPolicy(pols[i]),
+		})
+		if err != nil {
+			k.t.Fatalf("marshal publish: %v", err)
+		}
+		if err := k.nc.Publish(k.subject, data); err != nil {
+			return "publish-error"
+		}
+	}
+	k.nc.Flush()
+	deadline := time.Now().Add(3 * time.Second)
+	for p.log.NewestOffset() < before+int64(len(vs)) && time.Now().Before(deadline) {
+		time.Sleep(200 * time.Microsecond)
+	}
+	if p.log.NewestOffset() < before+int64(len(vs)) {
+		return "not-appended"
 	}
 	k.settle()
 	return ""
@@ -715,10 +759,12 @@ func (k *vKit) step(id int, step map[string]interface{}) vRepEvent {
 	case "Publish":
 		recs := vList(step, "recs")
 		out := []map[string]interface{}{}
+		vs, pols := []int64{}, []string{}
 		for _, r := range recs {
-			res = k.publish(vInt(r, "v"), vStr(r, "pol"), false)
+			vs, pols = append(vs, vInt(r, "v")), append(pols, vStr(r, "pol"))
 			out = append(out, map[string]interface{}{"v": vInt(r, "v"), "pol": vStr(r, "pol")})
 		}
+		res = k.publishBatch(vs, pols)
 		args["recs"] = out
 	case "PublishRejected":
 		args["v"] = vInt(step, "v")
@@ -784,7 +830,7 @@ func TestVerifReplication(t *testing.T) {
 		if vIntDef(b.Cfg, "rf", 3) == 1 {
 			ids = []string{"a"}
 		}
-		k := newVKit(t, ns, gate, b.ID, int(vIntDef(b.Cfg, "minISR", 2)), int(vIntDef(b.Cfg, "fetchMax", 2)), ids)
+		k := newVKit(t, ns, gate, b.ID, int(vIntDef(b.Cfg, "minISR", 2)), int(vIntDef(b.Cfg, "fetchMax", 2)), ids, int(vIntDef(b.Cfg, "batch", 1)))
 		k.create()
 		tw.Emit(vRepEvent{T: b.ID, A: "Open", Args: map[string]interface{}{}, St: k.state(),
 			Obs: map[string]interface{}{"acks": []vAck{}, "nacks": []int64{}}})
